@@ -237,7 +237,7 @@ func NHVariant(i int, nis []string) *aftpb.Afts_NextHop {
 // narrowNH are the variants used where payload fidelity is not the subject.
 var narrowNH = []int{0, 1, 2, 4, 6}
 
-func (p *Pools) pick(r *rand.Rand, l []string) string { return l[r.IntN(len(l))] }
+func (p *Pools) pick(r *rand.Rand, l []string) string  { return l[r.IntN(len(l))] }
 func (p *Pools) pickU(r *rand.Rand, l []uint64) uint64 { return l[r.IntN(len(l))] }
 
 // GenEntry fills op.Entry with a random valid entry of the given kind; kind "" = random.
